@@ -2,7 +2,7 @@
 from rules import api as A
 from rules import opts as O
 from rules import extra as X
-from rules.core import guarded
+from rules.core import guarded, guarded_soft
 
 INFO = {
     "explanation": "The four lexical::parse* functions, the six lexical_core free functions and all 84 lexical_core trait-impl methods are shown to be single forwarding calls (same trait method, own parameters in order, result returned) - which is equality for the parse side; to_string* size the buffer by the documented bound, call lexical_core::write* once on it, truncate to the returned length and do nothing else to the bytes; every byte store in the writer crates is traced to an ASCII origin; both float OptionsBuilders reject non-ASCII punctuation and non-letter special strings on every Ok path.",
@@ -17,13 +17,13 @@ def run(col, configs, tier):
         guarded(col, A.rule_delegation, facts)
         guarded(col, A.rule_to_string, facts)
         guarded(col, A.rule_ascii_origin, facts)
-        guarded(col, X.rule_byte_predicates, facts)
+        guarded_soft(col, X.rule_byte_predicates, facts)
         # to_string_with_options sizes its buffer with buffer_size_const: the facade equals core only if that bound holds
-        guarded(col, X.rule_min_digits_allowance, facts)
-        guarded(col, X.rule_digit_window_allowance, facts)
-        guarded(col, X.rule_integer_sign_allowance, facts)
-        guarded(col, X.rule_exponent_allowance, facts)
-        guarded(col, X.rule_buffer_allowance, facts)
+        guarded_soft(col, X.rule_min_digits_allowance, facts)
+        guarded_soft(col, X.rule_digit_window_allowance, facts)
+        guarded_soft(col, X.rule_integer_sign_allowance, facts)
+        guarded_soft(col, X.rule_exponent_allowance, facts)
+        guarded_soft(col, X.rule_buffer_allowance, facts)
         from rules import tbl_write_integer as I17
         guarded(col, I17.rule_sizes, facts)
         for crate in ("lexical_write_float", "lexical_parse_float"):
